@@ -499,7 +499,10 @@ Proof.
   rewrite wc_id in He. unfold iX in *. rewrite He. clear He.
   destruct (import_blocks p (own_w st w) n k (Z.min (k + B) (fst (tip (x_w st))))
               (credits (x_w st), x_brecs st) n) as [[cs brs]|e].
-  - rewrite exec_Write. cbn. split; reflexivity.
+  - rewrite exec_Write.
+    change (x_w (wc st cs brs)) with {| credits := cs; synced := synced (x_w st) |}.
+    change (node_on_synced n {| credits := cs; synced := synced (x_w st) |}) with (node_on_synced n (x_w st)).
+    destruct (f_import_tipcheck fx && negb (node_on_synced n (x_w st) (Z.min (k + B) (fst (tip (x_w st)))))); cbn; split; reflexivity.
   - unfold iout_map. rewrite Hfx. destruct e; cbn; split; reflexivity.
 Qed.
 
@@ -983,7 +986,8 @@ Proof.
   destruct (memN w (x_dead st)); [reflexivity|].
   destruct (import_blocks p (own_w st w) n k (Z.min (k + B) (fst (tip (x_w st)))) (credits (x_w st), x_brecs st) n)
     as [[cs brs]|[| |]]; try reflexivity.
-  destruct (f_import_retry fx); reflexivity.
+  - destruct (f_import_tipcheck fx && negb _); reflexivity.
+  - destruct (f_import_retry fx); reflexivity.
 Qed.
 
 Lemma remove_request_keys : forall st w pass, x_keys (fst (remove_request st w pass)) = x_keys st.
